@@ -45,11 +45,14 @@ func (a *AzimuthalEquidistant) Forward(lonLat geom.XY) geom.XY {
 	λ0r := dtor(a.centerLonLat.X)
 	φ0r := dtor(a.centerLonLat.Y)
 
-	ρ := R * acos(sin(φ0r)*sin(φr)+cos(φ0r)*cos(φr)*cos(λr-λ0r))
-	θ := atan2(
-		cos(φr)*sin(λr-λ0r),
-		cos(φ0r)*sin(φr)-sin(φ0r)*cos(φr)*cos(λr-λ0r),
-	)
+	// The angular distance from the center is found with atan2 rather than
+	// as the acos of cosc: acos loses half of the available precision near
+	// the center, and rounding can push its argument above 1 (giving NaN).
+	cosc := sin(φ0r)*sin(φr) + cos(φ0r)*cos(φr)*cos(λr-λ0r)
+	east := cos(φr) * sin(λr-λ0r)
+	north := cos(φ0r)*sin(φr) - sin(φ0r)*cos(φr)*cos(λr-λ0r)
+	ρ := R * atan2(sqrt(east*east+north*north), cosc)
+	θ := atan2(east, north)
 	return geom.XY{
 		X: ρ * sin(θ),
 		Y: ρ * cos(θ),
